@@ -570,6 +570,7 @@ impl JsString {
     ///   - `end` <= `data.len()`.
     #[inline]
     #[must_use]
+    #[cfg_attr(kani, kani::requires(start <= end && end <= data.len()))]
     pub unsafe fn slice_unchecked(data: &JsString, start: usize, end: usize) -> Self {
         // Safety: invariant stated by this whole function.
         let slice = Box::new(unsafe { SliceString::new(data, start, end) });
